@@ -1,5 +1,6 @@
 (** C12 — subscribers see exactly one event per entry that actually entered the replica. *)
-From ID Require Import Model.Actor Model.Ranger Proofs.ActorFacts Proofs.ValidFacts Proofs.RangerFacts.
+From ID Require Import Model.Actor Model.Ranger Model.Replica Proofs.ActorFacts Proofs.ValidFacts Proofs.RangerFacts.
+From ID Require Import Proofs.FsPutFacts Proofs.RefineFacts Proofs.EventFacts.
 
 (** delivery: every event goes, in order, to every live subscription exactly once *)
 Theorem C12_deliver_spec : forall s ns evs,
@@ -30,7 +31,64 @@ Theorem C12_unsubscribe_isolated : forall c c' l, c <> c' ->
   filter (N.eqb c') (remove_n c l) = filter (N.eqb c') l.
 Proof. exact filter_remove_other. Qed.
 
+(** a reconciliation message through the handle, on any well-formed store and for any message the
+    decoder can produce: what the live subscriptions receive is [evs] once each, in order, where
+    - every entry that entered the replica is in [evs] (deletion markers and all),
+    - no entry is announced twice,
+    - every announced entry was a validated value of the message that was not already superseded
+      and is held (or superseded by a later value of the same message) afterwards, and the event
+      carries the sender, the policy's verdict for the key and the value's content status *)
+Theorem C12_reconciliation_events : forall EH MF CAP mss split s ns m from now r,
+  aget s ns = Some r -> ar_sync r = true -> wf_records (a_tables s) -> wf_message m ->
+  let '(s', _, d) := astep prefix_succ EH MF CAP mss split s (ASyncProcess ns m from now) in
+  exists evs,
+    d = flat_map (fun ev => map (fun c => (c, ev)) (live_of s ns)) evs /\
+    (forall x, In x (fs_all ns (a_tables s')) -> In x (fs_all ns (a_tables s)) \/ In x (map ev_entry evs)) /\
+    NoDup (map ev_entry evs) /\
+    (forall ev, In ev evs ->
+       exists e st, ev = RemoteInsert e from (policy_matches (get_policy (a_tables s) ns) (e_key e)) (st mod 4) /\
+                    In (e, st) (message_values m) /\ sync_validate EH MF now ns (a_tables s) e st = true /\
+                    ~ covered (fs_all ns (a_tables s)) e /\ covered (fs_all ns (a_tables s')) e).
+Proof. exact actor_sync_events. Qed.
+
+(** a local insert / deletion through the handle: one LocalInsert with the written entry per live
+    subscription iff it was applied, nothing (and an unchanged store) otherwise *)
+Theorem C12_local_insert_events : forall ks EH MF CAP mss split s ns au k h l now r,
+  aget s ns = Some r ->
+  let '(s', reply, d) := astep ks EH MF CAP mss split s (AInsertLocal ns au true k h l now) in
+  match reply with
+  | AOk => d = map (fun c => (c, LocalInsert (mkE ns au k now l h))) (live_of s ns)
+  | _ => d = [] /\ a_tables s' = a_tables s
+  end.
+Proof. exact local_insert_events. Qed.
+Theorem C12_local_delete_events : forall ks EH MF CAP mss split s ns au k now r,
+  aget s ns = Some r ->
+  let '(s', reply, d) := astep ks EH MF CAP mss split s (ADeletePrefix ns au true k now) in
+  match reply with
+  | ACount _ => d = map (fun c => (c, LocalInsert (mkE ns au k now 0 EH))) (live_of s ns)
+  | _ => d = [] /\ a_tables s' = a_tables s
+  end.
+Proof. exact local_delete_events. Qed.
+
+(** the hypotheses are met, and a deletion marker that arrives by reconciliation is announced: two
+    subscriptions, one stored entry below the marker's key *)
+Example C12_marker_by_reconciliation_is_announced :
+  let stp := astep prefix_succ 7 600000000 5 1 2 in
+  let s := fold_left (fun s o => fst (fst (stp s o)))
+             [AImport 11 (Some 12); AOpen 11 true (Some 0); ASubscribe 11 3; AInsertLocal 11 15 true [97;97] 9 2 1000000]
+             (ainit empty_tables) in
+  let marker := mkE 11 15 [97] 1000005 0 7 in
+  fs_all 11 (a_tables s) = [mkE 11 15 [97;97] 1000000 2 9] /\
+  let '(s', reply, d) := stp s (ASyncProcess 11 [PItem (11,15,[]) (11,15,[]) [(marker, 2)] true] 6 1000010) in
+  fs_all 11 (a_tables s') = [marker] /\
+  d = [(0, RemoteInsert marker 6 true 2); (3, RemoteInsert marker 6 true 2)].
+Proof. vm_compute. repeat split. Qed.
+
 Print Assumptions C12_deliver_spec.
 Print Assumptions C12_remote_insert_events.
 Print Assumptions C12_message_events_are_inserted_valid_values.
 Print Assumptions C12_unsubscribe_isolated.
+Print Assumptions C12_reconciliation_events.
+Print Assumptions C12_local_insert_events.
+Print Assumptions C12_local_delete_events.
+Print Assumptions C12_marker_by_reconciliation_is_announced.
